@@ -729,7 +729,7 @@ def verify(spec, registry=None, max_paths=400, only_clauses=None, only_cfg=None)
         ob = out["obligations"][base_len + i]
         if ob.get("status") == "undecided" and "UNSUPPORTED" not in str(ob.get("reason")) and _SOLVE["retries"]:
             old_t = smt.Z3_TIMEOUT_MS
-            smt.Z3_TIMEOUT_MS = old_t * 3
+            smt.Z3_TIMEOUT_MS = old_t * int(spec.get("_retry_factor", 3))
             try:
                 ob2 = _solve_vc(i)
             finally:
